@@ -90,6 +90,16 @@ def run(ctx, build, verdict, ev):
                 verdict.add_violation(f"{name}:array-2d", f"{name}.hedge differs between 1-d and 2-d array at {x}", {"hedge": name, "x": float(x)})
             lits.append(f"({vlib.fhex(x)}, {vlib.fhex(r)}, false, [])")
             index.append((name, "array", float(x), float(r)))
+        # elementwise on arrays: the array result equals the scalar results bit for bit (a float path through libm pow and an
+        # array path through an exact square differ in about 1 of 1000 inputs)
+        probe = np.array([ctx.rng.random() for _ in range(ctx.n(3000, 40000))])
+        with np.errstate(all="ignore"):
+            pa = np.asarray(real.hedge(probe), dtype=float)
+            for x, a in zip(probe, pa):
+                r = float(real.hedge(float(x)))
+                if not vlib.same_float(r, float(a)):
+                    verdict.add_violation(f"{name}:array-vs-scalar", f"{name}.hedge: array evaluation {float(a)!r} differs from scalar evaluation {r!r} at x={float(x)!r}", {"hedge": name, "x": float(x), "scalar": r, "array": float(a)})
+                    break
         checker = f"fun c => let '(x, e, m, t) := c in feq (@{name}_hedge float (NumF m t) x) e"
         groups.append(("float * float * bool * oracle", checker, lits))
     if clone_diff:
